@@ -978,6 +978,78 @@ fn real_main() {
             }
             bounds.insert("guard".into(), json!({"max_len": lmax, "matches": "none, each single position, all, all-but-one", "places": ["guard-end", "guard-start"]}));
         }
+        // Guard pages at the length thresholds: haystacks of V*t (+0,1,V-1)
+        // bytes for the multipliers at which block / accumulator / unrolled
+        // loops change regime (8..129, 255..257), 256..4100 and 65536 - flush
+        // against a trailing PROT_NONE page and directly after a leading one;
+        // no match, or one at the first / middle / last byte.
+        "guard-long" => {
+            let subj_s: Vec<Subject> = args.str("subjects", "swar,sse2,avx2,top").split(',').map(Subject::parse).collect();
+            let mut lens: Vec<usize> = vec![256, 257, 1024, 1025, 2048, 2049, 4095, 4096, 4097, 4100, 8192, 65535, 65536, 65537];
+            for v in [8usize, 16, 32] {
+                for t in [8usize, 16, 32, 33, 64, 65, 128, 129, 255, 256, 257, 510, 512] {
+                    for d in [0usize, 1, v - 1] {
+                        lens.push(v * t + d);
+                    }
+                }
+            }
+            // ... and EVERY length up to 1100 (thorough 4200): a block size
+            // need not be a power of two (255 words = 2040 bytes)
+            lens.extend(1..=if thorough { 4200 } else { 1100 });
+            if thorough {
+                lens.extend([1 << 20, (1 << 20) + 1]);
+            }
+            lens.sort();
+            lens.dedup();
+            let rep = par::run_items(&lens, |_, &len, r| {
+                let mut g = Arena::guarded(len / 4096 + 2);
+                let mut data = vec![other; len];
+                let mut order = 0u64;
+                for k in 1..=3u8 {
+                    for pos in [None, Some(0usize), Some(len / 2), Some(len - 1)] {
+                        if let Some(p) = pos {
+                            data[p] = nd[(k - 1) as usize];
+                        }
+                        for place in [Place::GuardEnd, Place::GuardStart] {
+                            let off = if place == Place::GuardEnd { g.flush_end(len) } else { 0 };
+                            let hay = g.place_fill(off, &data, other, other, 0);
+                            order += 1;
+                            r.states += 1;
+                            for &s in &subj_s {
+                                for &op in &ops {
+                                    if op == Op::Count && k != 1 {
+                                        continue;
+                                    }
+                                    r.evaluations += 1;
+                                    r.nontrivial += 1;
+                                    let exp = expected(k, op, nd, hay);
+                                    let got = guarded(|| call(s, k, op, nd, hay));
+                                    let bad = match &got {
+                                        Err(m) => Some(("panic", format!("panicked: {}", m))),
+                                        Ok(o) if o.res != exp => Some(("wrong_result", format!("returned {:?}, reference {:?}", o.res, exp))),
+                                        Ok(o) => o.raw_problem.clone().map(|p| ("raw_form", p)),
+                                    };
+                                    if let Some((class, what)) = bad {
+                                        r.violation(Violation {
+                                            class: class.into(),
+                                            key: ((len as u64) << 16) | order,
+                                            what: format!("[{}] {} {}{} on a {}-byte haystack ({}) with a match at {:?}: {}", class, s.name(), op.name(), k, len, place.name(), pos, what),
+                                            replay_argv: vec!["guard-long".into(), "--subjects".into(), s.name(), "--ops".into(), op.name().into()],
+                                            detail: json!({"class": class, "subject": s.name(), "op": op.name(), "k": k, "len": len, "place": place.name(), "pos": pos}),
+                                        });
+                                    }
+                                }
+                            }
+                        }
+                        if let Some(p) = pos {
+                            data[p] = other;
+                        }
+                    }
+                }
+            });
+            total.merge(rep);
+            bounds.insert("guard-long".into(), json!({"lens": lens.len(), "max_len": lens.last(), "rule": "V*{8,16,32,33,64,65,128,129,255,256,257,510,512}+{0,1,V-1} for V in {8,16,32}; 256..4100; 8192; 65535..65537; every length 1..=1100 (thorough 1..=4200, 1 MiB)", "places": ["guard-end", "guard-start"], "matches": "none, first, middle, last byte"}));
+        }
         // Exact-size heap blocks, meant to run under valgrind memcheck.
         "heap" => {
             let subj_s: Vec<Subject> = args.str("subjects", "swar,sse2,avx2,top").split(',').map(Subject::parse).collect();
